@@ -837,6 +837,12 @@ static vdns::Bytes server_cookie_of(const Packet &p)
 void oracle_c17_cookie(World &w, const History &h)
 {
   (void)h;
+  // One reference automaton per server, driven by everything the outside can see in one global order: the
+  // transmissions (what cookie they carry) and the replies the library looked at (and whether their data reached a
+  // callback). Sending and accepting are judged by the same automaton, because the regression / re-learn resets of
+  // RFC 7873 happen when a request is SENT (the client cookie is seen to change) and decide which later replies
+  // may be accepted.
+  const int64_t REGRESSION_US = 120LL * 1000000, DAY_US = 86400LL * 1000000;
   struct Srv {
     bool        have = false;      // a UDP transmission with a cookie was seen
     vdns::Bytes client;            // client part of the latest such transmission
@@ -846,6 +852,7 @@ void oracle_c17_cookie(World &w, const History &h)
     long        server_seq = -1;
     bool        proven = false;    // support proven since the last reset
     bool        cookieless_since = false; // a cookie-less reply was looked at since support was proven / ever
+    int64_t     cookieless_at = 0; // when the first of those was read
     long        reset_seq = -1;    // order stamp of the last reset of the automaton (server deemed unsupported / regressed)
   } S[8];
   // packets the library looked at, in read order
@@ -860,23 +867,65 @@ void oracle_c17_cookie(World &w, const History &h)
     const Transmission *cur = nullptr;
     if (!looked_at(w, p, &cur)) return;
     int s = p.src_server;
-    if (s < 0 || s >= 8 || cur->tcp || !cur->q.has_cookie) return;
+    if (s < 0 || s >= 8 || cur->tcp || !cur->q.has_cookie) return; // no cookie in the current transmission: nothing to validate
+    bool delivered = false;
+    for (auto &t : w.toks)
+      if (t.count && (std::find(t.markers.begin(), t.markers.end(), p.serial) != t.markers.end() || t.neg_marker == p.serial) && t.tx_at_done > t.tx_at_issue) delivered = true;
     const Transmission &ptx = w.txs[(size_t)p.for_tx];
-    // the cookie option of the reply echoes the client part of the transmission it answers
-    bool client_matches_current = ptx.q.client_cookie == cur->q.client_cookie;
-    bool reply_has_cookie = (has_valid_cookie(p) || p.kind == RK_CK_WRONGCLIENT) && ptx.q.has_cookie;
-    if (reply_has_cookie && !(client_matches_current && p.kind != RK_CK_WRONGCLIENT)) return; // dropped as spoofed: teaches nothing
-    if (has_valid_cookie(p) && reply_has_cookie) {
-      if (ptx.seq < S[s].reset_seq) return; // answers a transmission from before the last reset: teaches nothing
-      S[s].proven           = true;
-      S[s].cookieless_since = false;
-      if (S[s].have && S[s].client == cur->q.client_cookie) {
-        S[s].server     = server_cookie_of(p);
-        S[s].server_seq = p.seq_read;
+    // the cookie option of the reply echoes the client part of the transmission it answers (replies only echo a
+    // cookie the request carried)
+    bool echoes_current_client = ptx.q.has_cookie && ptx.q.client_cookie == cur->q.client_cookie && p.kind != RK_CK_WRONGCLIENT;
+    bool carries_cookie        = (has_valid_cookie(p) || p.kind == RK_CK_WRONGCLIENT) && ptx.q.has_cookie;
+    Srv &L = S[s];
+    if (carries_cookie && !echoes_current_client) {
+      // spoofed or stale: must be dropped, teaches nothing
+      if (delivered) w.violate("C17:accept:wrong-client-cookie", fmt("packet #%d whose client cookie does not match the current transmission tx#%d was delivered", p.serial, cur->id));
+      else w.W("c17_wrong_client_dropped");
+      return;
+    }
+    if (p.kind == RK_BADCOOKIE || p.kind == RK_BADCOOKIE_BARE) {
+      if (delivered) w.violate("C17:accept:badcookie-delivered", fmt("BADCOOKIE packet #%d was delivered to a callback", p.serial));
+      if (p.kind == RK_BADCOOKIE_BARE || !carries_cookie) return;
+    }
+    if (has_valid_cookie(p) && carries_cookie) {
+      if (ptx.seq < L.reset_seq) return; // answers a transmission from before the last reset: teaches nothing
+      L.proven           = true;
+      L.cookieless_since = false;
+      if (L.have && L.client == cur->q.client_cookie) {
+        L.server     = server_cookie_of(p);
+        L.server_seq = p.seq_read;
       }
-    } else if (p.kind != RK_BADCOOKIE_BARE && !reply_has_cookie) {
-      S[s].cookieless_since = true;
-      if (!S[s].proven) S[s].reset_seq = p.seq_read; // never proven: the server is now treated as not supporting cookies
+      if (delivered) w.W("c17_valid_cookie_accept");
+      return;
+    }
+    // cookie-less (but otherwise acceptable) reply to a transmission that carried a cookie
+    if (L.proven) {
+      if (!L.cookieless_since) {
+        L.cookieless_since = true;
+        L.cookieless_at    = p.t_read;
+        if (delivered)
+          w.violate("C17:accept:cookie-less-reply-after-support-proven", fmt("cookie-less packet #%d was delivered although server %d had proven cookie support (first such reply)", p.serial, s));
+        else
+          w.W("c17_cookieless_dropped");
+      } else if (delivered) {
+        if (p.t_read - L.cookieless_at < REGRESSION_US)
+          w.violate("C17:accept:cookie-less-reply-after-support-proven",
+                    fmt("cookie-less packet #%d was delivered %lld ms after the first cookie-less reply of server %d, which had proven cookie support; the regression period is 120 s", p.serial,
+                        (long long)((p.t_read - L.cookieless_at) / 1000), s));
+        else
+          w.W("c17_regression_accept");
+      } else
+        w.W("c17_cookieless_dropped");
+    } else {
+      // server never proved support (since the last reset): it must simply be used without cookies
+      bool rc_ok = p.rcode == vdns::RC_NOERROR || p.rcode == vdns::RC_NXDOMAIN;
+      if (!delivered && rc_ok && !p.tc && p.carries_data)
+        w.violate("C17:never-cookie-server:reply-not-delivered", fmt("server %d never returned a cookie, yet its plain reply packet #%d to the current transmission was not delivered", s, p.serial));
+      else if (delivered)
+        w.W("c17_never_cookie_server_served");
+      if (!L.cookieless_since) L.cookieless_at = p.t_read;
+      L.cookieless_since = true;
+      L.reset_seq        = p.seq_read; // the server is now treated as not supporting cookies
     }
   };
   for (auto &t : w.txs) {
@@ -916,28 +965,35 @@ void oracle_c17_cookie(World &w, const History &h)
       bool src_changed = L.src != src;
       if (src_changed && same_client) w.violate("C17:client-cookie:kept-after-source-address-change", fmt("tx#%d to server %d reuses the client cookie although the source address changed", t.id, s));
       if (src_changed && !t.q.server_cookie.empty()) w.violate("C17:server-cookie:kept-after-source-address-change", fmt("tx#%d echoes a server cookie learned for another source address", t.id));
+      bool aged   = t.t_us - L.client_since >= DAY_US;
+      // the regression / re-learn period, counted from the first cookie-less reply, has passed
+      bool period = L.cookieless_since && t.t_us - L.cookieless_at >= REGRESSION_US;
       if (!src_changed && !same_client) {
-        // legal only after a rotation trigger: the client cookie is a day old, or the support state was reset
-        // (a cookie-less reply was looked at since support was last proven / before it ever was)
-        bool trigger = L.cookieless_since || (t.t_us - L.client_since >= 86400LL * 1000000);
+        // legal only after a rotation trigger: the client cookie is a day old, or the support state was reset because
+        // cookie-less replies were seen and the regression period has passed since the first of them
+        bool trigger = aged || L.cookieless_since;
         if (!trigger)
           w.violate("C17:client-cookie:changed-without-rotation-trigger", fmt("tx#%d to server %d carries a new client cookie (previous one first used %lld s ago), same source address, no cookie-less reply seen", t.id, s, (long long)((t.t_us - L.client_since) / 1000000)));
+        else if (!aged && L.proven && t.t_us - L.cookieless_at < REGRESSION_US - 1000000)
+          w.violate("C17:client-cookie:changed-without-rotation-trigger",
+                    fmt("tx#%d to server %d carries a new client cookie only %lld ms after the first cookie-less reply of a server that had proven support (regression period 120 s), same source address, cookie not a day old", t.id,
+                        s, (long long)((t.t_us - L.cookieless_at) / 1000)));
         else
           w.W("c17_client_cookie_rotated");
       }
       if (same_client && !src_changed) w.W("c17_client_cookie_constant");
       if (!same_client || src_changed) {
-        bool aged = t.t_us - L.client_since >= 86400LL * 1000000;
         L.client_since = t.t_us;
         L.server.clear();
         L.server_seq = -1;
-        // a rotation caused by a state reset (cookie-less replies -> regression / unsupported back-off) starts the
-        // automaton over; a rotation by age or source address keeps what is known about the server. When both
-        // could be the cause the model stays permissive (keeps the pending cookie-less observation).
-        if (!src_changed && L.cookieless_since && !aged) {
+        // a rotation caused by a state reset (cookie-less replies, then the regression / re-learn period) starts the
+        // automaton over, whether or not the cookie was also a day old; a rotation by age alone or by source address
+        // keeps what is known about the server (and a pending cookie-less observation).
+        if (!src_changed && L.cookieless_since && (!L.proven || period)) {
           L.proven           = false;
           L.cookieless_since = false;
           L.reset_seq        = t.seq;
+          w.W("c17_reset_by_regression");
         }
         if (src_changed) w.W("c17_source_address_changed");
       }
@@ -953,72 +1009,7 @@ void oracle_c17_cookie(World &w, const History &h)
       w.violate("C17:server-cookie:not-echoed", fmt("tx#%d omits the server cookie %s learned earlier for this client cookie", t.id, vf::hex(L.server).c_str()));
     if (!t.q.server_cookie.empty()) w.W("c17_server_cookie_echoed");
   }
-  // ---- acceptance side: replay the same automaton over the reads and judge each delivered packet
-  Srv A[8];
-  int64_t first_missing[8];
-  for (int i = 0; i < 8; i++) first_missing[i] = -1;
-  for (const Packet *pp : reads) {
-    const Packet       &p   = *pp;
-    const Transmission *cur = nullptr;
-    bool                seen = looked_at(w, p, &cur);
-    if (!seen) continue;
-    int s = p.src_server;
-    if (s < 0 || s >= 8) continue;
-    bool delivered = false;
-    for (auto &t : w.toks)
-      if (t.count && (std::find(t.markers.begin(), t.markers.end(), p.serial) != t.markers.end() || t.neg_marker == p.serial) && t.tx_at_done > t.tx_at_issue) delivered = true;
-    if (cur->tcp || !cur->q.has_cookie) continue; // no cookie in the current transmission: nothing to validate
-    const Transmission &ptx = w.txs[(size_t)p.for_tx];
-    bool echoes_current_client = ptx.q.has_cookie && ptx.q.client_cookie == cur->q.client_cookie && p.kind != RK_CK_WRONGCLIENT;
-    bool carries_cookie        = (has_valid_cookie(p) || p.kind == RK_CK_WRONGCLIENT) && ptx.q.has_cookie; // replies only echo a cookie the request carried
-    if (carries_cookie && !echoes_current_client) {
-      if (delivered) w.violate("C17:accept:wrong-client-cookie", fmt("packet #%d whose client cookie does not match the current transmission tx#%d was delivered", p.serial, cur->id));
-      else w.W("c17_wrong_client_dropped");
-      continue;
-    }
-    if (!carries_cookie && (has_valid_cookie(p) || p.kind == RK_CK_WRONGCLIENT) && p.kind != RK_BADCOOKIE) {
-      // reply to an earlier cookie-less transmission: a plain cookie-less answer (handled below)
-    }
-    if (p.kind == RK_BADCOOKIE || p.kind == RK_BADCOOKIE_BARE) {
-      if (delivered) w.violate("C17:accept:badcookie-delivered", fmt("BADCOOKIE packet #%d was delivered to a callback", p.serial));
-      if (p.kind == RK_BADCOOKIE && ptx.seq >= A[s].reset_seq) { // same rule as for a valid answer: a reply to a transmission from before the last reset teaches nothing
-        A[s].proven      = true;
-        first_missing[s] = -1;
-      }
-      continue;
-    }
-    if (has_valid_cookie(p) && carries_cookie) {
-      if (ptx.seq >= A[s].reset_seq) {
-        A[s].proven      = true;
-        first_missing[s] = -1;
-      }
-      if (delivered) w.W("c17_valid_cookie_accept");
-      continue;
-    }
-    // cookie-less (but otherwise acceptable) reply to a transmission that carried a cookie
-    if (A[s].proven) {
-      if (first_missing[s] < 0) {
-        first_missing[s] = p.t_read;
-        if (delivered)
-          w.violate("C17:accept:cookie-less-reply-after-support-proven", fmt("cookie-less packet #%d was delivered although server %d had proven cookie support (first such reply)", p.serial, s));
-        else
-          w.W("c17_cookieless_dropped");
-      } else if (delivered) {
-        if (p.t_read - first_missing[s] <= 0)
-          w.violate("C17:accept:cookie-less-reply-after-support-proven", fmt("cookie-less packet #%d was delivered although no time has passed since support regressed", p.serial));
-        else
-          w.W("c17_regression_accept");
-      }
-    } else {
-      // server never proved support: it must simply be used without cookies
-      bool rc_ok = p.rcode == vdns::RC_NOERROR || p.rcode == vdns::RC_NXDOMAIN;
-      if (!delivered && rc_ok && !p.tc && p.carries_data)
-        w.violate("C17:never-cookie-server:reply-not-delivered", fmt("server %d never returned a cookie, yet its plain reply packet #%d to the current transmission was not delivered", s, p.serial));
-      else if (delivered)
-        w.W("c17_never_cookie_server_served");
-      A[s].reset_seq = p.seq_read;
-    }
-  }
+  while (ri < reads.size()) absorb(*reads[ri++]);
 }
 
 // ---------------------------------------------------------------------------
